@@ -4,7 +4,6 @@
 use crate::framework::{CaseReport, Monitor, Tier};
 use crate::jobj;
 use crate::json::Json;
-use crate::model::cost::Cost;
 use crate::model::ros::{run_lib, CbSpec, Kind, RosProblem};
 use crate::model::uni::{mean_separation, Outcome};
 use crate::monitors::c04::{exec_patterns, gen_executor};
@@ -21,7 +20,7 @@ pub fn self_consistent_bounds(ex: &Executor, kinds: &[Kind], use_bw: bool, limit
     let mut r: Vec<u64> = ex.cbs.iter().map(|c| c.wcet).collect();
     for round in 1..=60u32 {
         let workload: Vec<CbSpec> = (0..n)
-            .map(|i| CbSpec { rt_bound: r[i], arr: ex.chains[ex.locate(i).0].source.clone(), cost: Cost::Scalar(ex.cbs[i].wcet), kind: kinds[i] })
+            .map(|i| CbSpec { rt_bound: r[i], arr: ex.chains[ex.locate(i).0].source.clone(), cost: ex.cbs[i].cost(), kind: kinds[i] })
             .collect();
         let mut next = vec![0u64; n];
         for i in 0..n {
@@ -163,6 +162,9 @@ impl Monitor for C05 {
         for (name, v, rounds) in &vectors {
             for cb in 0..ex.cbs.len() {
                 rep.count("bounds_checked", 1);
+                if ex.cbs.iter().any(|c| c.cost_curve.is_some()) {
+                    rep.count("bounds_checked_in_executors_with_cost_curve_callbacks", 1);
+                }
                 if worst[cb] == v[cb] {
                     rep.count(&format!("bound_attained[{}]", name), 1);
                 }
